@@ -469,8 +469,10 @@ func run(c *vf.Ctx) {
 				if !errors.As(err, &ice) || int(ice) != v {
 					c.Violation("bcrypt.Cost does not reject a cost outside 4..31 with InvalidCostError", map[string]any{"hash": h, "got": fmt.Sprint(cost, err)})
 				}
-				if v <= maxCompareCost || v > 31 {
-					if cerr := bcrypt.CompareHashAndPassword([]byte(h), pwD); cerr == nil {
+				// only when Cost itself rejected the string: a tree that accepts cost 32 would
+				// otherwise start 2^32 key expansions here
+				if err != nil && v < bcrypt.MinCost {
+					if cerr, ran := safeCompare(c, []byte(h), pwD, "cost field"); ran && cerr == nil {
 						c.Violation("CompareHashAndPassword accepts a hash with cost outside 4..31", h)
 					}
 				}
